@@ -59,6 +59,8 @@ pub struct Scenario {
     pub ins: Vec<RIn>,
     pub outs: Vec<ROut>,
     pub collateral: Option<(usize, Vec<Term>)>,
+    /// `reference` blocks: store ids referenced (a referenced UTxO may also be one that gets spent)
+    pub references: Vec<usize>,
     pub store: Vec<SUtxo>,
     pub n_parties: usize,
 }
@@ -124,6 +126,9 @@ impl Scenario {
                 s.push_str(&format!("    ref: 0x{}#{},\n", hex::encode(&sref(r).txid), sref(r).index));
             }
             s.push_str("  }\n");
+        }
+        for (k, r) in self.references.iter().enumerate() {
+            s.push_str(&format!("  reference ref_{} {{\n    ref: 0x{}#{},\n  }}\n", k, hex::encode(&sref(*r).txid), sref(*r).index));
         }
         if let Some((p, terms)) = &self.collateral {
             s.push_str(&format!("  collateral {{\n    from: {},\n", PARTY[*p]));
@@ -198,11 +203,13 @@ pub struct ROpts {
     /// stores sized from "exactly enough" down to "one short"
     pub tight_store: bool,
     pub max_outputs: usize,
+    /// `reference` blocks pointing at store UTxOs (also at ones an input block will take)
+    pub allow_reference_blocks: bool,
 }
 
 impl Default for ROpts {
     fn default() -> Self {
-        ROpts { max_inputs: 3, allow_min_utxo: true, allow_tokens: true, allow_refs: true, allow_collateral: true, tight_store: false, max_outputs: 3 }
+        ROpts { max_inputs: 3, allow_min_utxo: true, allow_tokens: true, allow_refs: true, allow_collateral: true, tight_store: false, max_outputs: 3, allow_reference_blocks: false }
     }
 }
 
@@ -307,5 +314,15 @@ pub fn generate(t: &mut Tape, o: &ROpts) -> Scenario {
             }
         }
     }
-    Scenario { tx_name: "move_funds".into(), params, ins, outs, collateral, store, n_parties }
+    let mut references = vec![];
+    if o.allow_reference_blocks {
+        let n = t.weighted(&[3, 2, 1]);
+        for _ in 0..n {
+            let id = store[t.pick(store.len())].id;
+            if !references.contains(&id) {
+                references.push(id);
+            }
+        }
+    }
+    Scenario { tx_name: "move_funds".into(), params, ins, outs, collateral, references, store, n_parties }
 }
